@@ -70,6 +70,15 @@ CLAIMED = {
                   'when the receive side turns closed; drain raises on a lost connection.',
              ref='4/C09, 9', note='liveness over the scheduler ("none waits forever") is not decided by contracts; asyncio '
                   'Future/Event/call_soon are assumed contracts; SFTP handler cleanup not covered'),
+ 'C10': dict(text='Proof of termination variants and signals clauses on the code that consumes peer bytes: every SSHPacket '
+                  'reader method keeps its representation invariant and raises only PacketDecodeError; _recv_data lets nothing '
+                  'escape and its loop has a variant; _recv_version line/banner limits; transport message handlers; the '
+                  '`while packet:` loops consume input every iteration; der_decode/der_decode_partial and all registered decoders '
+                  'raise only ASN1DecodeError; SOCKS/X11 prefix automata make progress and stop after close; editor line bound; '
+                  'validate_sshsig returns a bool.',
+             ref='4/C10, 9', note='wall-clock cost of bytes concatenation is not modelled (iteration counts only); handlers '
+                  'behind process_packet are assumed to raise only DisconnectError/PacketDecodeError; RecursionError covered by a '
+                  'bounded native probe only; SFTPAttrs.decode not under contract'),
  'C11': dict(text='Proof on send_packet for every packet type, flag valuation and block size/header case: what is '
                   'emitted during a key exchange is a kex/transport message (RFC 4253 7.1), every packet is queued xor '
                   'emitted, kex messages are never queued, the rekey trigger fires iff limits are reached, sequence rule; '
@@ -88,6 +97,29 @@ CLAIMED = {
                   'direct child.',
              ref='4/C13, 9', note='posixpath join/normpath/basename are assumed contracts validated exhaustively on a bounded '
                   'alphabet (bounded stand-in, not counted); symlinks already on disk and Windows path forms out of scope'),
+ 'C14': dict(text='Proof that SFTPServerHandler._process_packet sends exactly one reply with the request id on every '
+                  'path that does not propagate a BaseException, of the declared return type on success and FXP_STATUS with the '
+                  'documented code on every error (unknown type, malformed body, errno table), with the dispatch tables re-read '
+                  'from source; client id allocation mod 2^32, waiter stored under its id, reply pops exactly its own waiter, '
+                  'type check in _make_request, a request stays outstanding until replied; framing of send/recv_packet(s).',
+             ref='4/C14, 9', note='request handlers abstract; attribute codecs v3-v6 covered by an exhaustive bounded stand-in '
+                  '(not counted); id uniqueness needs < 2^32 outstanding requests (precondition)'),
+ 'C16': dict(text='Proof that SSHKey.verify never raises and accepts only String(alg)||rest with alg in THIS key class\'s own '
+                  'algorithm set (per-class sets never shared or mutated), sign emits the layout verify parses; certificate '
+                  'construct verifies exactly the consumed prefix ending in the CA key with the signature as last field and decodes '
+                  'options with the tables of the certificate\'s own type (unknown critical option => KeyImportError); validate '
+                  '(type, valid_after <= now < valid_before, principals); SSHSIG blob equals the PROTOCOL.sshsig layout and is '
+                  'injective; validate_sshsig returns True only for a verifying key that allowed-signers authorises.',
+             ref='4/C16, 9', note='signature primitives and hashes uninterpreted (EUF-CMA / collision resistance are crypto '
+                  'assumptions); SSHAllowedSigners.validate and X.509 chains abstract; the SSHPacket reader is used through a '
+                  'word-equation contract proved on the real packet.py'),
+ 'C17': dict(text='Proof on pattern.py, known_hosts.py, auth_keys.py and the options tokenizer: pattern lists (some positive '
+                  'matches and no negated one does, ! stripped exactly from negated ones), bracket escaping, CIDR/wildcard host '
+                  'patterns, known_hosts load routing (exact vs pattern, markers, unparsable lines skipped without effect), _match '
+                  'selection and classification, port fallback, hashed hosts, authorized_keys first-matching-entry rule with ALL '
+                  'options required, the {plain, quoted, escaped} tokenizer automaton as a loop invariant.',
+             ref='4/C17, 9', note='fnmatch/ipaddress/HMAC are assumed contracts with bounded differential stand-ins (also '
+                  'against ssh-keygen -F for the oracle); known finding F-C17-3 recorded'),
  'C18': dict(text='Proof on config.py: every setter is first-value-wins over the whole option map (explicit none counts), '
                   'accumulators accumulate, Match evaluates the conjunction with per-criterion negation (recursive spec), '
                   'expansion = env(token(value)) and raises exactly on unresolved references, the server %u safety regex is '
